@@ -41,8 +41,8 @@ def better(E, a, b):
     return E.all([E.no(b < a), E.implies(E.no(E.isnan(b)), E.no(E.isnan(a)))])
 
 
-def body(E, op, n, m, num_pts, npt_so_far, with_h):
-    M, ghost = mk_model(E, n, m, num_pts, npt_so_far, with_h=with_h, xr=True)
+def body(E, op, n, m, num_pts, npt_so_far, with_h, scaling=False):
+    M, ghost = mk_model(E, n, m, num_pts, npt_so_far, with_h=with_h, xr=True, scaling=scaling)
     npt = M.npt()
     M.factorisation_current = True if op not in ('save_point_abs', 'save_point_rel', 'get_final_results') else False
     kopt0 = M.kopt
@@ -176,10 +176,11 @@ def harnesses(tier, seed):
                         continue
                     if op == 'get_final_results' and npt_so_far != num_pts:
                         continue
-                    name = "%s[n=%d,m=%d,npt=%d/%d,h=%d]" % (op, n, m, npt_so_far, num_pts, with_h)
+                    scaling = bool(with_h and npt_so_far == num_pts)      # regulariser together with internal scaling (h sees user units)
+                    name = "%s[n=%d,m=%d,npt=%d/%d,h=%d%s]" % (op, n, m, npt_so_far, num_pts, with_h, ',scaling' if scaling else '')
                     hs.append(Harness(
                         name, 'dfverif.checks.c17', 'body',
-                        params=dict(op=op, n=n, m=m, num_pts=num_pts, npt_so_far=npt_so_far, with_h=with_h),
+                        params=dict(op=op, n=n, m=m, num_pts=num_pts, npt_so_far=npt_so_far, with_h=with_h, scaling=scaling),
                         cfg=core.Cfg(fork_queries=True, qtimeout_ms=20000 if tier == 'quick' else 60000),
                         functions=FUNCS,
                         bounds="n=%d, m=%d, num_pts=%d, npt_so_far=%d, sample counts <= 3, one operation from any invariant state" % (n, m, num_pts, npt_so_far),
